@@ -96,3 +96,11 @@ Theorem C16_accounted_tokens_lie_inside_the_span : forall t seg lo hi,
   Acc t seg lo hi -> Forall tok_wf seg -> (lo <= hi)%Z /\ Within lo hi seg.
 Proof. exact acc_facts. Qed.
 Print Assumptions C16_accounted_tokens_lie_inside_the_span.
+
+(* "exactly one": the error-node spans of the tree are ordered (spchain, theorem above), hence a token of
+   positive width lies inside at most one of them; the accounting gives the one that swallowed it *)
+Theorem C16_a_token_lies_in_at_most_one_error_span : forall l lo hi i j s1 s2 k,
+  spchain lo l hi -> i < j -> nth_error l i = Some s1 -> nth_error l j = Some s2 ->
+  (tk_lo k < tk_hi k)%Z -> within (fst s1) (snd s1) k -> within (fst s2) (snd s2) k -> False.
+Proof. exact spchain_disjoint. Qed.
+Print Assumptions C16_a_token_lies_in_at_most_one_error_span.
